@@ -1509,7 +1509,9 @@ class MySQLCompiler(
                     return None
 
             val = visitors.replacement_traverse(val, {}, replace)
-            value_text = self.process(val.self_group(), use_schema=False)
+            value_text = self.process(
+                val.self_group(), use_schema=False, is_upsert_set=True
+            )
 
             name_text = self.preparer.quote(column.name)
             clauses.append("%s = %s" % (name_text, value_text))
